@@ -3,6 +3,7 @@ import PteraModel.Driver.Tools
 import PteraModel.Driver.Selector
 import PteraModel.Driver.Handlers
 import PteraModel.Driver.Lifecycle
+import PteraModel.Driver.Ctx
 open Lean
 
 def dispatch (j : Json) : Json :=
@@ -10,6 +11,7 @@ def dispatch (j : Json) : Json :=
   | "tools" => Ptera.Driver.Tools.handle j
   | "lex" | "ptree" | "parse" | "select0" | "hashvar" => Ptera.Driver.Selector.handle j
   | "handlers" => Ptera.Driver.Handlers.handle j
+  | "ctx" => Ptera.Driver.Ctx.handle j
   | "lifecycle" => Ptera.Driver.Lifecycle.handle j
   | "tagmatch" => Ptera.Driver.Handlers.handleTag j
   | "ping" => Json.mkObj [("ok", "pong")]
